@@ -16,7 +16,9 @@ def extract_sphere(dataset, radius, origin):
     subdomain.meta = dataset.meta.copy()
 
     for name, group in dataset.items():
-        pos = group.get("position", group.parent["amr"]["position"])
+        pos = group.get("position", None)
+        if pos is None:
+            pos = group.parent["mesh"]["position"]
         if pos.shape != group.shape:
             warnings.warn(
                 "Ignoring datagroup '{}', which has no position ".format(group)
@@ -39,7 +41,9 @@ def extract_box(dataset, dx, dy, dz, origin):
     subdomain.meta = dataset.meta.copy()
 
     for name, group in dataset.items():
-        pos = group.get("position", group.parent["amr"]["position"])
+        pos = group.get("position", None)
+        if pos is None:
+            pos = group.parent["mesh"]["position"]
         if pos.shape != group.shape:
             warnings.warn(
                 "Ignoring datagroup '{}', which has no position ".format(group)
